@@ -122,7 +122,7 @@ pub fn c12(args: &Args) -> Acc {
         let effs = effects(args);
         let acc = par_cases(n, args.threads, args.case, |idx, a| {
             let mut rng = Rng::for_case(args.seed, "C12/calls", &args.tier, idx);
-            let models = [ModelId::ILI9341Rgb565, ModelId::ILI9341Rgb666, ModelId::ST7789, ModelId::Ext16x16, ModelId::GC9A01, ModelId::ILI9486Rgb666, ModelId::Ext64x48];
+            let models = [ModelId::ILI9341Rgb565, ModelId::ILI9341Rgb666, ModelId::ST7789, ModelId::Ext16x16, ModelId::GC9A01, ModelId::ILI9486Rgb666, ModelId::Ext64x48, ModelId::ExtQuirk];
             let m = *rng.pick(&models);
             let trs: Vec<Tr> = [Tr::Spi, Tr::P8, Tr::P16, Tr::L1S].into_iter().filter(|t| t.type_checks(m.bits())).collect();
             let tr = *rng.pick(&trs);
